@@ -62,6 +62,14 @@ func stopMatrix(sc *scen.Scenario, t *scen.Tape, i int) string {
 	c.Workers = []int{1, 2, 4}[t.Draw(3)]
 	c.PoolSize = []int{1, 3}[t.Draw(2)]
 	c.Seencheck = t.Draw(2) == 1
+	if i < 4 {
+		// the first profiles of every batch cover each value of the two-valued settings at least once (proxy, async WARC, rate limiter, seencheck)
+		row := [][4]bool{{false, false, false, true}, {true, true, true, false}, {true, false, true, true}, {false, true, false, false}}[i]
+		c.Proxy, c.AsyncWARC, c.RateLimit, c.Seencheck = row[0], row[1], row[2], row[3]
+		if c.RateLimit && c.RLCapacity == 0 {
+			c.RLCapacity, c.RLRate, c.RLCleanupSec = 3, 5, 300
+		}
+	}
 	if c.AsyncWARC {
 		c.WARCQueueSize = []int{-1, 1, 4}[t.Draw(3)]
 	}
@@ -150,6 +158,18 @@ func planC03(p *propDef, tier string, seed uint64, n int) []*Case {
 		low := scen.DiskReading{Blocks: 1 << 28, Bavail: 1 << 10, Bsize: 4096}
 		add(pr, mix(pr.seed, 201), "disk-low,stop-while-paused", []scen.CtlAction{{Name: "stop", Kind: "stop", Trigger: scen.Trigger{Point: "pause.pause.broadcast", Nth: 1}}}, []scen.DiskReading{ok, ok, low})
 		add(pr, mix(pr.seed, 202), "disk-low,recovers,stop", []scen.CtlAction{{Name: "stop", Kind: "stop", Trigger: scen.Trigger{Point: "pause.resume.done", Nth: 1}}}, []scen.DiskReading{ok, ok, low, low, ok})
+		// the local queue's database fails (cooperative fault points in lq.Get / lq.Delete): for ever, or a few times
+		addLQ := func(sd uint64, label string, faults map[string][]string, ctl []scen.CtlAction) {
+			add(pr, sd, label, ctl, nil)
+			cases[len(cases)-1].Scenario.LQFaults = faults
+		}
+		for j, nth := range []int{1, 3} {
+			addLQ(mix(pr.seed, uint64(301+j)), fmt.Sprintf("lq-delete-fails-forever,stop@lq.fin.deleted#%d", nth), map[string][]string{"delete": {"err*"}}, []scen.CtlAction{{Name: "stop", Kind: "stop", Trigger: scen.Trigger{Point: "lq.fin.deleted", Nth: nth}}})
+		}
+		addLQ(mix(pr.seed, 303), "lq-delete-fails-forever,stop@lq.db.fault#2", map[string][]string{"delete": {"", "err*"}}, []scen.CtlAction{{Name: "stop", Kind: "stop", Trigger: scen.Trigger{Point: "lq.db.fault", Nth: 2}}})
+		addLQ(mix(pr.seed, 304), "lq-delete-fails-twice,stop@idle", map[string][]string{"delete": {"err", "", "err"}}, nil)
+		addLQ(mix(pr.seed, 305), "lq-get-fails-forever,stop@lq.fetch.got#3", map[string][]string{"get": {"", "err*"}}, []scen.CtlAction{{Name: "stop", Kind: "stop", Trigger: scen.Trigger{Point: "lq.fetch.got", Nth: 3}}})
+		addLQ(mix(pr.seed, 306), "lq-get-fails-sometimes,stop@idle", map[string][]string{"get": {"err", "", "err", "err"}}, nil)
 		add(pr, mix(pr.seed, 203), "disk-low,stop-during-resume", []scen.CtlAction{{Name: "stop", Kind: "stop", Trigger: scen.Trigger{Point: "pause.resume.enter", Nth: 1}}}, []scen.DiskReading{ok, ok, low, low, ok})
 	}
 	return cases
